@@ -24,13 +24,13 @@ METHOD = {'supertypes': 'supertypes_of', 'all_supertypes': 'all_supertypes_of', 
 
 def templates(ctx):
     T = []
-    shapes = [(0, 1, 1)] if ctx.quick() else [(0, 1, 1), (0, 1, 2), (0, 2, 1), (1, 1, 1), (0, 1, 1, 1), (0, 1, 2, 2)]
+    shapes = [(0, 1, 1)] if ctx.quick() else [(0, 1, 1), (0, 1, 2), (1, 1, 1)]
     for shape in shapes:
         # quick: the first query is one of the three that fill both caches in every way the others do
         for a in (['all_supertypes', 'inheritance', 'reflect'] if ctx.quick() else OPS):
             for b in OPS:
                 T.append({'name': 'hist-%s-%s>%s' % (''.join(map(str, shape)), a, b), 'mode': 'tax', 'is': list(shape), 'q1': a, 'q2': b,
-                          'alpha': (0x61, 0x64) if ctx.quick() else (0x61, 0x66)})
+                          'alpha': (0x61, 0x64) if ctx.quick() else (0x61, 0x65)})
     return T
 
 
@@ -115,9 +115,9 @@ def post(ex, t, r):
 def run(ctx):
     prog = load.program(ctx.repo, ctx.cache)
     T = templates(ctx)
-    ctx.cov['bounds'] = {'defs': 'as C13: 3 (quick) / 3-4 (thorough) defs, names one symbolic byte a..f, 0-2 symbolic `is` entries, acyclic', 'histories': 'every ordered pair of %s with symbolic symbols; the second query also on a fresh namespace' % OPS,
+    ctx.cov['bounds'] = {'defs': 'as C13: 3 defs, names one symbolic byte a..d (quick) / a..e (thorough), 1 (quick) / 3 (thorough) shapes of, 0-2 symbolic `is` entries, acyclic', 'histories': 'every ordered pair of %s with symbolic symbols; the second query also on a fresh namespace' % OPS,
                          'NOT decided': 'interleavings of 2-16 threads on dashmap (sequential model only)'}
-    S = sym.explore_templates(ctx, __import__('props.C14', fromlist=['x']), T, prog, split_depth=6, max_steps=400000, budget_s=900 if ctx.quick() else 3000)
+    S = sym.explore_templates(ctx, __import__('props.C14', fromlist=['x']), T, prog, split_depth=6, max_steps=400000, budget_s=900 if ctx.quick() else 4500)
     sym.native_check(ctx, S)
     ctx.cov['path_kinds'] = dict(collections.Counter(s['kind'] for s in S))
     unsup = collections.Counter(); mism = 0; validated = 0; binary = None
